@@ -149,6 +149,9 @@ def check_stop_region(view, bs, start, s, rule, what_prefix, seed_locals, seed_p
                 out.append(finding(rule, view, "%s: the value returned does not carry the stopped error" % what_prefix, bb))
             elif view.b.kind != "Closure" and kn.get(0) not in ("Err", None) :
                 out.append(finding(rule, view, "%s: the value returned is not an Err" % what_prefix, bb))
+            elif view.b.kind == "Closure" and kn.get(0) == "Continue":
+                # the function of a `try_fold` / `try_for_each`: answering Continue asks for the next item
+                out.append(finding(rule, view, "%s: the closure answers ControlFlow::Continue, which asks the iteration that drives it for the next item" % what_prefix, bb))
             continue
         if k == "call":
             c = view.callee(bb)
@@ -568,6 +571,9 @@ def c02_rules(view, bs):
     k_out, k_ob = acc_keep(view, bs, "C02.KEEP")
     out.extend(k_out)
     obligations += k_ob
+    k_out, k_ob = fold_keep(view.b.crate, view, "C02.KEEP")
+    out.extend(k_out)
+    obligations += k_ob
 
     # ---- C02.STRUCT: unconditional stops (outside Break paths) hide nothing
     exam = set(next_bbs) | set(b for b, c in child_bbs.items() if not c["delegating"]) | \
@@ -729,6 +735,62 @@ def acc_keep(view, bs, rule):
                 if inner[0] == "call" and inner[1] in sites_by_bb:
                     continue
                 # a value computed by a local helper / closure: not decided here (C01 tracks the ownership)
+    return out, ob
+
+
+def fold_keep(crate, view, rule):
+    """The same for an accumulator that is threaded through `try_fold` / `fold`: the closure receives what was accumulated
+    so far as its first argument and answers with the next state.  An answer that can follow an examination and is `None`
+    (or a report that started from nothing) forgets the earlier reports."""
+    from analysis import View, strip_refs
+    from sites import BodySites
+    out = []
+    ob = 0
+    for bb, c in view.calls():
+        if c.fn is None or not c.trait or erase_generics(c.trait) != "std::iter::Iterator" or c.name not in ("try_fold", "fold"):
+            continue
+        t = view.origin_call(bb)
+        clo = None
+        for a in t[3]:
+            a = strip_refs(a)
+            if a and a[0] == "agg" and a[1] == "closure" and len(a) > 3:
+                clo = a[3]
+        cb = None
+        for b2 in crate.bodies:
+            if b2.path == clo:
+                cb = b2
+        if cb is None:
+            continue
+        cv = View(cb)
+        cbs = BodySites(cv)
+        if not any(s_.acc == 2 and s_.self_term[0] == "param" for s_ in cbs.sites):
+            continue     # the first argument is not an accumulated error
+        ob += 1
+        sites_by_bb = {s_.bb: s_ for s_ in cbs.sites}
+        exam = set(ch["bb"] for ch in cbs.children) | set(sites_by_bb)
+        for rb in sorted(cv.reach):
+            for st in cv.blocks[rb]["stmts"]:
+                if st["k"] != "assign" or st["place"]["l"] != 0 or st["place"]["p"]:
+                    continue
+                tm = cv.origin_rv(st["rv"], rb)
+                for lf in cv.alts(tm) or [tm]:
+                    inner = lf
+                    # the next state: payload of Continue / Ok, or the value itself (`fold`)
+                    if inner[0] == "agg" and inner[1] == "adt" and inner[4] in ("Continue", "Ok") and inner[2]:
+                        inner = inner[2][0]
+                    elif inner[0] == "agg" and inner[1] == "adt" and inner[4] in ("Break", "Err"):
+                        continue
+                    for sub in cv.alts(inner) or [inner]:
+                        if sub[0] == "agg" and sub[1] == "adt" and sub[3] == "std::option::Option" and sub[4] == "None":
+                            if any(rb in cv.reachable(e) for e in exam):
+                                out.append(finding(rule, cv, "the error accumulated so far (first argument of the %s closure) is answered with None after an item was examined: "
+                                                   "earlier reports are forgotten" % c.name, rb))
+                        elif sub[0] == "agg" and sub[1] == "adt" and sub[4] == "Some" and sub[2]:
+                            for s2 in cv.alts(sub[2][0]) or [sub[2][0]]:
+                                if s2[0] == "field" and s2[2] == "Continue" and isinstance(s2[1], tuple) and s2[1][0] == "call" and s2[1][1] in sites_by_bb:
+                                    s_ = sites_by_bb[s2[1][1]]
+                                    if s_.self_none:
+                                        out.append(finding(rule, cv, "the error accumulated so far is replaced by a report that started from nothing: earlier reports are forgotten", rb))
     return out, ob
 
 
